@@ -3,12 +3,14 @@ import NeumannModel.Vec.Lemmas
   C06 — property theorems for similarity search.  ONLY property statements and their
   non-vacuity examples live here; helpers are in `Lemmas.lean`.
 
-  Reading guide.  `run v State.init ops` is the engine state after ANY sequence of
+  Reading guide.  `run State.init ops` is the engine state after ANY sequence of
   store / overwrite / delete / batch-delete / clear / build-index / collection operations
-  (`Op`), for the code variant `v` (`Variant.current` = /repo as it is).  The search functions
+  (`Op`) of the code as it is (with the fixes a71cd63e, B1, B2).  The search functions
   return `SearchOut.ranked ..` exactly when the answer is computed by brute force (no index
   consulted) and `SearchOut.viaIndex snap ..` exactly when the cached index built from `snap`
-  is consulted.
+  is consulted.  `runOld`, `searchDefaultOld`, `searchCollFilteredOld` are the code before those
+  fixes; they appear only in the `_witness` theorems, which record on a concrete input what the
+  old code did and what the current code does instead.
 -/
 namespace Neumann.Vec.Props
 open Neumann.Vec
@@ -48,15 +50,15 @@ theorem repr_roundtrip_bits (v : List Nat) :
   · left; rfl
 
 /-- `get` after `store` returns the vector just written (overwriting included) -/
-theorem store_then_get (v : Variant) (st : State) (key : String) (vec : List Int) (h : vec ≠ []) :
-    getDefault (step v st (.store key vec)).1 key = some vec := by
+theorem store_then_get (st : State) (key : String) (vec : List Int) (h : vec ≠ []) :
+    getDefault (step st (.store key vec)).1 key = some vec := by
   have : vec.isEmpty = false := by cases vec <;> simp_all
   simp [step, this, getDefault, alGet_alPut_self, vecOf_mkItem]
 
 /-- a deleted key is gone -/
-theorem delete_then_absent (v : Variant) (st : State) (key : String)
+theorem delete_then_absent (st : State) (key : String)
     (h : alHas st.dflt.items key = true) :
-    getDefault (step v st (.delete key)).1 key = none := by
+    getDefault (step st (.delete key)).1 key = none := by
   simp [step, h, getDefault, alGet_alDel_self]
 
 /-! ### search_is_topk — brute-force search returns the true nearest stored vectors -/
@@ -81,19 +83,19 @@ theorem score_order_is_total_preorder (m : Metric) :
   ⟨better_total m, better_trans m⟩
 
 /-- **Similarity search without an index returns the true nearest stored vectors.**
-    After EVERY operation sequence (either code variant), for every metric, query and `k`:
+    After EVERY operation sequence, for every metric, query and `k`:
     whenever `search_similar_with_metric`, `search_similar` or `search_in_collection` answers by
     brute force, the answer is exactly the top-`k` (`IsTopK`) of what is stored now, under the
     requested / cosine / the collection's configured metric respectively. -/
-theorem search_is_topk (v : Variant) (ops : List Op) (q : List Int) (k : Nat) :
-    (∀ m m' rs cut k', searchMetric (run v State.init ops) m q k = .ranked m' rs cut k' →
-      IsTopK (run v State.init ops).dflt.items m q none k (SearchOut.answer (.ranked m' rs cut k'))) ∧
-    (∀ m' rs cut k', searchDefault (run v State.init ops) q k = .ranked m' rs cut k' →
-      IsTopK (run v State.init ops).dflt.items .cosine q none k (SearchOut.answer (.ranked m' rs cut k'))) ∧
-    (∀ c m' rs cut k', searchColl (run v State.init ops) c q k = .ranked m' rs cut k' →
-      IsTopK (collOf (run v State.init ops) c).items (cfgMetric (run v State.init ops) c) q none k
+theorem search_is_topk (ops : List Op) (q : List Int) (k : Nat) :
+    (∀ m m' rs cut k', searchMetric (run State.init ops) m q k = .ranked m' rs cut k' →
+      IsTopK (run State.init ops).dflt.items m q none k (SearchOut.answer (.ranked m' rs cut k'))) ∧
+    (∀ m' rs cut k', searchDefault (run State.init ops) q k = .ranked m' rs cut k' →
+      IsTopK (run State.init ops).dflt.items .cosine q none k (SearchOut.answer (.ranked m' rs cut k'))) ∧
+    (∀ c m' rs cut k', searchColl (run State.init ops) c q k = .ranked m' rs cut k' →
+      IsTopK (collOf (run State.init ops) c).items (cfgMetric (run State.init ops) c) q none k
         (SearchOut.answer (.ranked m' rs cut k'))) := by
-  have hk := keysOK_run v ops State.init keysOK_init
+  have hk := keysOK_run ops State.init keysOK_init
   refine ⟨?_, ?_, ?_⟩
   · intro m m' rs cut k' h
     simp only [searchMetric] at h
@@ -133,11 +135,11 @@ theorem search_is_topk (v : Variant) (ops : List Op) (q : List Int) (k : Nat) :
 
 /-- Filtered search, pre-filter strategy (default collection: cosine): exact top-`k` of the
     stored vectors that satisfy the metadata filter, after every operation sequence. -/
-theorem search_filtered_pre_is_topk (v : Variant) (ops : List Op) (q : List Int) (k : Nat) (f : Filter)
+theorem search_filtered_pre_is_topk (ops : List Op) (q : List Int) (k : Nat) (f : Filter)
     (os : Nat) (m' : Metric) (rs : List Cand) (cut k' : Nat)
-    (h : searchFiltered (run v State.init ops) q k f .pre os = .ranked m' rs cut k') :
-    IsTopK (run v State.init ops).dflt.items .cosine q (some f) k (SearchOut.answer (.ranked m' rs cut k')) := by
-  have hk := keysOK_run v ops State.init keysOK_init
+    (h : searchFiltered (run State.init ops) q k f .pre os = .ranked m' rs cut k') :
+    IsTopK (run State.init ops).dflt.items .cosine q (some f) k (SearchOut.answer (.ranked m' rs cut k')) := by
+  have hk := keysOK_run ops State.init keysOK_init
   simp only [searchFiltered] at h
   split at h
   · cases h
@@ -149,15 +151,15 @@ theorem search_filtered_pre_is_topk (v : Variant) (ops : List Op) (q : List Int)
         subst h1 h2 h3 h4
         exact prefilter_answer _ hk.1 .cosine q f _
 
-/-- PARTIAL for named collections: the pre-filter branch of `search_filtered_in_collection` is an
-    exact top-`k` **under cosine**, whatever metric the collection is configured with (what is
-    missing: the configured metric — see `coll_prefilter_ignores_metric_witness`). -/
-theorem search_filtered_coll_pre_is_topk_partial (v : Variant) (ops : List Op) (c : String) (q : List Int)
+/-- Filtered search in a named collection, pre-filter strategy: exact top-`k` of the collection's
+    stored vectors that satisfy the metadata filter **under the collection's configured metric**
+    (cosine, Euclidean or dot product), after every operation sequence. -/
+theorem search_filtered_coll_pre_is_topk (ops : List Op) (c : String) (q : List Int)
     (k : Nat) (f : Filter) (os : Nat) (m' : Metric) (rs : List Cand) (cut k' : Nat)
-    (h : searchCollFiltered (run v State.init ops) c q k f .pre os = .ranked m' rs cut k') :
-    IsTopK (collOf (run v State.init ops) c).items .cosine q (some f) k
+    (h : searchCollFiltered (run State.init ops) c q k f .pre os = .ranked m' rs cut k') :
+    IsTopK (collOf (run State.init ops) c).items (cfgMetric (run State.init ops) c) q (some f) k
       (SearchOut.answer (.ranked m' rs cut k')) := by
-  have hk := keysOK_run v ops State.init keysOK_init
+  have hk := keysOK_run ops State.init keysOK_init
   simp only [searchCollFiltered] at h
   split at h
   · cases h
@@ -169,41 +171,94 @@ theorem search_filtered_coll_pre_is_topk_partial (v : Variant) (ops : List Op) (
         · cases h
         · injection h with h1 h2 h3 h4
           subst h1 h2 h3 h4
-          exact prefilter_answer _ (keysOK_collOf _ c hk) .cosine q f _
+          exact prefilter_answer _ (keysOK_collOf _ c hk) _ q f _
 
 /-! ### no_stale_cache — an index is never consulted after its data changed -/
 
-/-- **With /verif/proposed/C06-invalidate-hnsw-cache.diff applied** (`Variant.fixed`): after EVERY
-    operation sequence, in the default and in every named collection, a cached index — if there
-    is one — was built from exactly the current data, and every search that consults an index
-    consults one built from the current data. -/
-theorem no_stale_cache (ops : List Op) : NoStaleUse (run Variant.fixed State.init ops) :=
-  noStaleUse_of_inv _ (inv_run Variant.fixed ops State.init inv_init (Or.inl rfl))
-
-/-- PARTIAL, the code as it is (`Variant.current`): the same, for every sequence of operations that
-    does not contain `store_embedding_with_metadata`, `batch_delete_embeddings`, `clear` or
-    `delete_collection`.  What is missing: those four (see `stale_cache_witness`). -/
-theorem no_stale_cache_partial (ops : List Op) (h : ∀ op ∈ ops, op.invalidates = true) :
-    NoStaleUse (run Variant.current State.init ops) :=
-  noStaleUse_of_inv _ (inv_run Variant.current ops State.init inv_init (Or.inr h))
+/-- After EVERY operation sequence, in the default and in every named collection, a cached index
+    — if there is one — was built from exactly the current data, and every search that consults
+    an index (`search_similar`, `search_similar_filtered`, `search_in_collection`,
+    `search_filtered_in_collection`) consults one built from the current data. -/
+theorem no_stale_cache (ops : List Op) : NoStaleUse (run State.init ops) :=
+  noStaleUse_of_inv _ (inv_run ops State.init inv_init)
 
 def staleOps : List Op :=
   [.store "a" [1, 0, 0], .store "b" [0, 1, 0], .build, .batchDelete ["a"]]
 
-/-- The code as it is does NOT have the property: after store, store, build-index, batch-delete
-    the index built from the old data is still consulted, and it still contains the deleted key. -/
+/-- Regression witness (code before a71cd63e): after store, store, build-index, batch-delete the
+    index built from the old data was still consulted, and it still contained the deleted key.
+    The current code answers the same sequence by brute force from the current data. -/
 theorem stale_cache_witness :
-    getDefault (run Variant.current State.init staleOps) "a" = none ∧
-    (match searchDefault (run Variant.current State.init staleOps) [1, 0, 0] 5 with
+    getDefault (runOld State.init staleOps) "a" = none ∧
+    (match searchDefaultOld (runOld State.init staleOps) [1, 0, 0] 5 with
       | .viaIndex snap _ _ _ => snap.map (·.1)
-      | _ => []) = ["a", "b"] := by
-  decide
-
-/-- the same sequence on the fixed variant answers by brute force from the current data -/
-theorem stale_cache_fixed_witness :
-    (match searchDefault (run Variant.fixed State.init staleOps) [1, 0, 0] 5 with
+      | _ => []) = ["a", "b"] ∧
+    (match searchDefault (run State.init staleOps) [1, 0, 0] 5 with
       | .ranked _ rs _ _ => rs.map (·.key)
       | _ => ["?"]) = ["b"] := by
+  decide
+
+/-! ### cached_index_dimension_guard — an index only sees queries of its own dimension -/
+
+/-- After EVERY operation sequence, for every entry point, query and `k`: if a cached index is
+    consulted then every indexed vector has the query's dimension; the unspecified outcome of the
+    old code (`indexDimMismatch`: index searched with a query of another dimension — a panic or
+    scores against vectors of the wrong length) never occurs.  A query of another dimension is
+    answered by brute force over the stored vectors of the query's dimension (`search_is_topk`). -/
+theorem cached_index_dimension_guard (ops : List Op) : DimGuarded (run State.init ops) :=
+  dimGuarded_of_inv _ (inv_run ops State.init inv_init)
+
+/-- ... so every result taken from the index has the query's dimension: whatever node ids and
+    scores the index returns (`ann`), each key the engine answers with is stored NOW and its
+    CURRENT vector has the query's dimension (default collection and named collections). -/
+theorem cached_result_has_query_dimension (ops : List Op) (q : List Int) (k : Nat)
+    (ann : List (Nat × Score)) :
+    (∀ snap rs cut k', searchDefault (run State.init ops) q k = .viaIndex snap rs cut k' →
+      ∀ r ∈ postProcessAnn snap ann k', ∃ it,
+        alGet (run State.init ops).dflt.items r.key = some it ∧ (vecOf it).length = q.length) ∧
+    (∀ c snap rs cut k', searchColl (run State.init ops) c q k = .viaIndex snap rs cut k' →
+      ∀ r ∈ postProcessAnn snap ann k', ∃ it,
+        alGet (collOf (run State.init ops) c).items r.key = some it ∧ (vecOf it).length = q.length) := by
+  have hk := keysOK_run ops State.init keysOK_init
+  have hs := no_stale_cache ops
+  have hd := cached_index_dimension_guard ops
+  have core : ∀ (items : Items), (items.map (·.1)).Nodup → ∀ (snap : Snap) (k' : Nat),
+      snap = snapOf items → (∀ e ∈ snap, e.2.length = q.length) →
+      ∀ r ∈ postProcessAnn snap ann k', ∃ it, alGet items r.key = some it ∧ (vecOf it).length = q.length := by
+    intro items hn snap k' hsnap hdim r hr
+    obtain ⟨a, _, e, he, rfl⟩ := mem_postProcessAnn snap ann k' r hr
+    have hmem : e ∈ snap := List.mem_of_getElem? he
+    have hmem' : (e.1, e.2) ∈ snapOf items := by rw [← hsnap]; exact hmem
+    obtain ⟨it, hit, hv⟩ := current_of_mem_snapOf items hn e.1 e.2 hmem'
+    exact ⟨it, hit, by rw [hv]; exact hdim e hmem⟩
+  refine ⟨?_, ?_⟩
+  · intro snap rs cut k' h
+    have h1 := hs.2.1 q k snap rs cut k' h
+    have h2 := hd.1 q k
+    rw [h] at h2
+    exact core _ hk.1 snap k' h1 h2
+  · intro c snap rs cut k' h
+    have h1 := hs.2.2.2.1 c q k snap rs cut k' h
+    have h2 := hd.2.2.2.1 c q k
+    rw [h] at h2
+    exact core _ (keysOK_collOf _ c hk) snap k' h1 h2
+
+def dimOps : List Op := [.store "a" [1, 0, 0], .store "b" [0, 1, 0], .build]
+
+/-- Regression witness (code before B1): with an index over dimension-3 vectors cached, a
+    dimension-4 (or dimension-2) query was handed to the index unchecked.  The current code
+    answers it by brute force: no stored vector has that dimension, so the answer is empty;
+    a dimension-3 query still goes to the index. -/
+theorem index_dim_unchecked_witness :
+    searchDefaultOld (runOld State.init dimOps) [1, 0, 0, 5] 5
+      = .indexDimMismatch [("a", [1, 0, 0]), ("b", [0, 1, 0])] ∧
+    searchDefaultOld (runOld State.init dimOps) [1, 0] 5
+      = .indexDimMismatch [("a", [1, 0, 0]), ("b", [0, 1, 0])] ∧
+    searchDefault (run State.init dimOps) [1, 0, 0, 5] 5 = .ranked .cosine [] 5 5 ∧
+    searchDefault (run State.init dimOps) [1, 0] 5 = .ranked .cosine [] 5 5 ∧
+    (match searchDefault (run State.init dimOps) [0, 0, 1] 5 with
+      | .viaIndex snap _ _ _ => snap.length
+      | _ => 0) = 2 := by
   decide
 
 /-! ### cached_result_shape — what holds when the index is consulted (recall is not claimed) -/
@@ -223,16 +278,7 @@ theorem cached_result_shape (snap : Snap) (q : List Int) (ann : List (Nat × Sco
       ∀ c ∈ postProcessAnn snap ann k, ∃ vec, (c.key, vec) ∈ snap ∧ c.score = score .cosine q vec) := by
   have hperm := sortBy_perm (candBetter .cosine)
     (ann.filterMap fun a => (snap[a.1]?).map fun e => (⟨e.1, a.2, true⟩ : Cand))
-  have hmem : ∀ c ∈ postProcessAnn snap ann k,
-      ∃ a ∈ ann, ∃ e, snap[a.1]? = some e ∧ c = ⟨e.1, a.2, true⟩ := by
-    intro c hc
-    have h1 := hperm.subset (List.mem_of_mem_take hc)
-    obtain ⟨a, ha, hac⟩ := List.mem_filterMap.mp h1
-    cases he : snap[a.1]? with
-    | none => simp [he] at hac
-    | some e =>
-      simp only [he, Option.map_some, Option.some.injEq] at hac
-      exact ⟨a, ha, e, he, hac.symm⟩
+  have hmem := mem_postProcessAnn snap ann k
   refine ⟨?_, ?_, ?_, ?_, ?_⟩
   · simp only [postProcessAnn, List.length_take]; omega
   · exact (sortBy_sorted _ (candBetter_total _) (candBetter_trans _) _).sublist (List.take_sublist k _)
@@ -260,48 +306,71 @@ theorem cached_result_is_current (items : Items) (hn : (items.map (·.1)).Nodup)
   obtain ⟨rfl, rfl⟩ := heq
   exact ⟨e.2, alGet_of_mem_nodup items e.1 e.2 hn he, hs⟩
 
-/-! ### what the current code does NOT satisfy (kept as regression witnesses) -/
+/-! ### what the current code does NOT satisfy (known findings), and regression witnesses -/
 
 def pfItems : List Op :=
   [.storeMeta "a" [4, 0] [("f", 0)], .storeMeta "b" [4, 1] [("f", 0)], .storeMeta "c" [4, 2] [("f", 0)],
    .storeMeta "d" [4, 3] [("f", 0)], .storeMeta "e" [0, 1] [("f", 1)]]
 
-/-- Post-filter strategy (chosen by `Auto` when ≥ 10 % of the sample matches): oversample `3k`
-    by similarity, THEN filter — the only vector satisfying `f = 1` is not among the 3 nearest, so
-    the answer is empty although a qualifying vector is stored.  The pre-filter answer finds it. -/
+/-- KNOWN FINDING (current code), `search_similar_filtered`.  Post-filter strategy (chosen by
+    `Auto` when ≥ 10 % of the sample matches): oversample `3k` by similarity, THEN filter — the
+    only vector satisfying `f = 1` is not among the 3 nearest, so the answer is empty although a
+    qualifying vector is stored.  The pre-filter answer finds it. -/
 theorem post_filter_not_topk_witness :
-    (searchFiltered (run Variant.current State.init pfItems) [1, 0] 1 (.cmp .eq "f" 1) .auto 3).answer.map (·.key) = [] ∧
-    (searchFiltered (run Variant.current State.init pfItems) [1, 0] 1 (.cmp .eq "f" 1) .pre 3).answer.map (·.key) = ["e"] := by
+    (searchFiltered (run State.init pfItems) [1, 0] 1 (.cmp .eq "f" 1) .auto 3).answer.map (·.key) = [] ∧
+    (searchFiltered (run State.init pfItems) [1, 0] 1 (.cmp .eq "f" 1) .pre 3).answer.map (·.key) = ["e"] := by
+  decide
+
+def cpfItems : List Op :=
+  [.cstore "c" "a" [4, 0] [("f", 0)], .cstore "c" "b" [4, 1] [("f", 0)], .cstore "c" "c" [4, 2] [("f", 0)],
+   .cstore "c" "d" [4, 3] [("f", 0)], .cstore "c" "e" [0, 1] [("f", 1)]]
+
+/-- KNOWN FINDING (current code), `search_filtered_in_collection`: the same through a named
+    collection, post-filter strategy requested or chosen by `Auto`. -/
+theorem coll_post_filter_not_topk_witness :
+    (searchCollFiltered (run State.init cpfItems) "c" [1, 0] 1 (.cmp .eq "f" 1) .post 3).answer.map (·.key) = [] ∧
+    (searchCollFiltered (run State.init cpfItems) "c" [1, 0] 1 (.cmp .eq "f" 1) .auto 3).answer.map (·.key) = [] ∧
+    (searchCollFiltered (run State.init cpfItems) "c" [1, 0] 1 (.cmp .eq "f" 1) .pre 3).answer.map (·.key) = ["e"] := by
   decide
 
 def cpOps : List Op :=
   [.createColl "c" ⟨some 2, .euclid⟩, .cstore "c" "near" [1, 1] [("f", 1)], .cstore "c" "far" [60, 0] [("f", 1)]]
 
-/-- A collection configured with the Euclidean metric: unfiltered search ranks `near` first
-    (Euclid), the pre-filter branch of the filtered search ranks `far` first (cosine). -/
+/-- Regression witness (code before B2).  A collection configured with the Euclidean metric:
+    unfiltered search ranks `near` first (Euclid); the pre-filter branch of the filtered search
+    ranked `far` first (cosine) and answered nothing for the zero query.  The current code ranks
+    `near` first and answers the zero query (Euclidean distance to the origin is meaningful). -/
 theorem coll_prefilter_ignores_metric_witness :
-    (searchColl (run Variant.current State.init cpOps) "c" [2, 0] 1).answer.map (·.key) = ["near"] ∧
-    (searchCollFiltered (run Variant.current State.init cpOps) "c" [2, 0] 1 (.ex "f") .pre 3).answer.map (·.key) = ["far"] := by
+    (searchColl (run State.init cpOps) "c" [2, 0] 1).answer.map (·.key) = ["near"] ∧
+    (searchCollFilteredOld (runOld State.init cpOps) "c" [2, 0] 1 (.ex "f") .pre 3).answer.map (·.key) = ["far"] ∧
+    searchCollFilteredOld (runOld State.init cpOps) "c" [0, 0] 1 (.ex "f") .pre 3 = .zeroQuery ∧
+    (searchCollFiltered (run State.init cpOps) "c" [2, 0] 1 (.ex "f") .pre 3).answer.map (·.key) = ["near"] ∧
+    (searchCollFiltered (run State.init cpOps) "c" [0, 0] 1 (.ex "f") .pre 3).answer.map (·.key) = ["near"] := by
   decide
 
 /-! ### Non-vacuity: concrete non-trivial states / inputs meet the hypotheses -/
 
--- a sequence made only of invalidating operations, with an index built and then invalidated
-example : ∀ op ∈ ([.store "a" [1, 2], .build, .store "a" [2, 1], .cstore "c" "x" [1] [], .cbuild "c"] : List Op),
-    op.invalidates = true := by decide
--- an index really is consulted in reachable states (the `viaIndex` hypotheses are satisfiable)
-example : (match searchDefault (run Variant.fixed State.init [.store "a" [1, 2], .store "b" [2, 1], .build]) [1, 2] 1 with
+-- an index really is consulted in reachable states (the `viaIndex` hypotheses are satisfiable) ...
+example : (match searchDefault (run State.init [.store "a" [1, 2], .store "b" [2, 1], .build]) [1, 2] 1 with
     | .viaIndex snap _ _ _ => snap.length | _ => 0) = 2 := by decide
+-- ... also through a named collection, and after a batch delete that deleted nothing
+example : (match searchColl (run State.init [.cstore "c" "x" [1, 2] [], .cstore "c" "y" [2, 1] [], .cbuild "c"]) "c" [1, 2] 1 with
+    | .viaIndex snap _ _ _ => snap.length | _ => 0) = 2 := by decide
+example : (match searchDefault (run State.init [.store "a" [1, 2], .build, .batchDelete ["zz"]]) [1, 2] 1 with
+    | .viaIndex snap _ _ _ => snap.length | _ => 0) = 1 := by decide
 -- brute force really answers (the `ranked` hypotheses are satisfiable), with ties and mixed dimensions
-example : (searchMetric (run Variant.current State.init
+example : (searchMetric (run State.init
       [.store "a" [1, 2], .store "b" [2, 4], .store "c" [1, 2, 3], .store "z" [0, 0]]) .cosine [3, 6] 2).answer.map (·.key)
     = ["a", "b"] := by decide
+-- the pre-filter hypothesis of `search_filtered_coll_pre_is_topk` is satisfiable under a non-cosine metric
+example : (match searchCollFiltered (run State.init cpOps) "c" [2, 0] 2 (.ex "f") .pre 3 with
+    | .ranked m rs _ _ => (m, rs.map (·.key)) | _ => (.cosine, [])) = (.euclid, ["near", "far"]) := by decide
 -- the index contract hypotheses of `cached_result_shape` are satisfiable with a non-trivial answer
 example : (postProcessAnn [("a", [1, 0]), ("b", [0, 1])] (annWithTrueScores [("a", [1, 0]), ("b", [0, 1])] [1, 1] [1, 0, 7]) 5).map (·.key)
     = ["b", "a"] := by decide
 -- sparse representation really is chosen and normalises -0.0 only
 example : toDense bitsOps (mkRepr bitsOps [2147483648, 0, 0, 1065353216]) = [0, 0, 0, 1065353216] := by decide
 example : toDense intOps (mkRepr intOps [0, 0, 5, 0]) = [0, 0, 5, 0] := repr_roundtrip_int _
-example : alHas (run Variant.current State.init [.store "a" [1]]).dflt.items "a" = true := by decide
+example : alHas (run State.init [.store "a" [1]]).dflt.items "a" = true := by decide
 
 end Neumann.Vec.Props
